@@ -129,6 +129,10 @@ class FnTaint:
                 t = fn.blocks[n.bid].get("t")
                 if t:
                     trees.append(t.get("c"))
+            if not n.ev:
+                b_ = self._bound_sink(n)
+                if b_:
+                    res.append(b_)
             for tr in trees:
                 if not isinstance(tr, dict):
                     continue
@@ -154,6 +158,77 @@ class FnTaint:
                                 if s and T.const(q) is None:
                                     res.append((n, "ptr+", "+", s, q))
         return res
+
+    def _index_vars(self):
+        """locals used as a subscript or added to a pointer somewhere in the function"""
+        if getattr(self, "_ivs", None) is not None:
+            return self._ivs
+        ivs = set()
+        from .width import _exprs_of
+        for line, e in _exprs_of(self.fn):
+            for x in T.walk(e):
+                if not isinstance(x, dict):
+                    continue
+                if x.get("k") == "x":
+                    ivs |= T.vars_in(x.get("i") or {})
+                elif x.get("k") == "b" and x.get("o") in ("+", "+=", "-"):
+                    l, r = T.strip(x.get("l")), T.strip(x.get("r"))
+                    for p_, q_ in ((l, r), (r, l)):
+                        if isinstance(p_, dict) and p_.get("k") in ("v", "m", "cast") and _is_ptr(p_):
+                            ivs |= T.vars_in(q_ or {})
+        for n in self.fn.events("S"):
+            # p += n / p++ on a pointer: the pointer itself walks
+            l = T.strip(n.ev["lhs"])
+            if isinstance(l, dict) and l.get("k") == "v" and _is_ptr(l) and n.ev.get("o") in ("+=", "++"):
+                ivs.add(l["n"])
+        self._ivs = ivs
+        return ivs
+
+    def _bound_sink(self, n):
+        """a loop/branch test `iv < E` where E derives from the disk and iv indexes memory: E is a trusted bound"""
+        t = self.fn.blocks[n.bid].get("t")
+        if not t or not isinstance(t.get("c"), dict) or t.get("k") == "switch":
+            return None
+        for x in T.walk(t["c"]):
+            if not (isinstance(x, dict) and x.get("k") == "b" and x.get("o") in ("<", "<=", ">", ">=")):
+                continue
+            iv, bd = (x.get("l"), x.get("r")) if x["o"] in ("<", "<=") else (x.get("r"), x.get("l"))
+            iv0 = T.strip(iv)
+            if not (isinstance(iv0, dict) and iv0.get("k") == "v" and iv0.get("s") in ("l", "p")):
+                continue
+            if self.sources(iv) or T.const(bd) is not None:
+                continue
+            s = self.sources(bd)
+            if not s or iv0["n"] not in self._index_vars():
+                continue
+            return (n, "bound", "<", s, bd)
+        return None
+
+    def bound_checks(self, node, expr):
+        """tests that every path to the bound sink `node` passes and that look at the bound value `expr` other than
+        as the limit of an index variable (a range check, or the test of a clamp): [block ids]"""
+        fn = self.fn
+        out = []
+        want_src, want_vars = self.sources(expr), T.vars_in(expr)
+        for bid, b in fn.blocks.items():
+            t = b.get("t")
+            if bid == node.bid or not t or not isinstance(t.get("c"), dict) or t.get("k") == "switch":
+                continue
+            hit = False
+            for x in T.walk(t["c"]):
+                if not (isinstance(x, dict) and x.get("k") == "b" and x.get("o") in ("<", "<=", ">", ">=", "==", "!=")):
+                    continue
+                if not ((self.sources(x) & want_src) or (T.vars_in(x) & want_vars)):
+                    continue
+                iv, bd = (x.get("l"), x.get("r")) if x["o"] in ("<", "<=") else (x.get("r"), x.get("l"))
+                iv0 = T.strip(iv)
+                if x["o"] in ("<", "<=", ">", ">=") and isinstance(iv0, dict) and iv0.get("k") == "v" and \
+                        iv0["n"] in self._index_vars() and not self.sources(iv):
+                    continue        # another use of the value as a limit
+                hit = True
+            if hit and fn.dominated_by(node, [fn.block_end(bid)]):
+                out.append(bid)
+        return out
 
     # ------------------------------------------------------------------ guards
     def guard_shape(self, atom):
